@@ -1,36 +1,30 @@
-KEY_RMVAL = ("revert does not restore a validator removed with RemoveValidator (validatorDeleteChange keeps the "
-             "deleted flag and does not restore the statistics)")
-KEY_WDORDER = ("revert re-appends withdraw records removed with RemoveWithdrawRecords at the end of the queue "
-               "instead of their old positions")
-KEY_DLGALIAS = ("revert does not restore a validator's delegation list after UpdateDelegation (PartialCopy shares the "
-                "Delegations slice that UpdateDelegationFrom edits in place)")
+# C09 - reverting to a state snapshot restores exactly the snapshotted state.
+#
+# Findings of this property fixed in /repo:
+#   744634f  revision lists out of step after a finalised transaction   (witness corpus/C09/w1_*)
+#   fe4c1ff  reverts across RemoveValidator / RemoveWithdrawRecords / UpdateDelegation did not restore
+#            (witnesses corpus/C09/w2_* w3_* w4_*, description fixes/C09_validator_journal_reverts.md)
+# The witnesses stay in the corpus; a tree that shows the old behaviour again makes the
+# harness oracle report them, and the check answers with a VIOLATION line.
+# Open: CreateValidator over a removed validator (KNOWN below, fixes/C09_validator_create_revert.*).
 
+KEY_CREATE = ("revert of a CreateValidator that replaced a removed validator wipes the address: the removed record and "
+              "its index entry are not put back (validatorCreateChange)")
 KNOWN = [
-    {"property": "C09", "status": "open", "key": KEY_RMVAL,
-     "text": "RevertToSnapshot across StateDB.RemoveValidator leaves the validator deleted and the statistics decremented "
-             "(validatorDeleteChange stores the live object whose deleted flag is then set, and its revert never calls "
-             "incrValidatorsStat); no production caller of RemoveValidator exists. witness corpus/C09/w2_remove_validator_not_restored.json, "
-             "repair fixes/C09_validator_journal_reverts.diff",
-     "witness": ["corpus/C09/w2_remove_validator_not_restored.json"]},
-    {"property": "C09", "status": "open", "key": KEY_WDORDER,
-     "text": "RevertToSnapshot across StateDB.RemoveWithdrawRecords puts the removed records back at the end of the withdraw queue "
-             "(in reverse order), so the queue and the validator root differ from the snapshot; the only caller runs in EndBlock, "
-             "outside any snapshot. witness corpus/C09/w3_withdraw_queue_order.json, repair fixes/C09_validator_journal_reverts.diff",
-     "witness": ["corpus/C09/w3_withdraw_queue_order.json"]},
-    {"property": "C09", "status": "open", "key": KEY_DLGALIAS,
-     "text": "RevertToSnapshot across StateDB.UpdateDelegation does not restore the validator's delegation list: Validator.PartialCopy "
-             "shares the Delegations slice and UpdateDelegationFrom overwrites / shifts it in place, so the journalled old record is "
-             "edited too (after a removed delegation the restored list ends in a nil entry and Dump panics). "
-             "witness corpus/C09/w4_delegation_slice_shared.json, repair fixes/C09_validator_journal_reverts.diff",
-     "witness": ["corpus/C09/w4_delegation_slice_shared.json"]},
+    {"property": "C09", "status": "open", "key": KEY_CREATE,
+     "text": "RevertToSnapshot across a CreateValidator that replaced a validator removed with RemoveValidator deletes the live "
+             "entry and the index entry instead of putting the removed record back (validatorCreateChange only knows the address); "
+             "index, end-of-block statistics and validator root then differ from the snapshot. RemoveValidator has no production "
+             "caller. witness corpus/C09/w8_create_over_removed_validator.json, repair fixes/C09_validator_create_revert.diff",
+     "witness": ["corpus/C09/w8_create_over_removed_validator.json"]},
 ]
 
 
 def check(pid, tier, seed):
-    """standard_check with the C09 findings listed here (builders do not edit
-    the shared /verif/known_findings.json).  A finding is listed only while its
-    witness still fails on the tree under test, so the check also passes once
-    fixes/C09_validator_journal_reverts.diff has been applied."""
+    """standard_check with the open C09 finding listed here (builders do not edit
+    the shared /verif/known_findings.json).  It is listed only while its witness
+    still fails on the tree under test, so nothing is printed once
+    fixes/C09_validator_create_revert.diff has been applied."""
     import os
     import vf
     present = list(KNOWN)
@@ -57,38 +51,41 @@ def check(pid, tier, seed):
 
 
 SPEC = {
-    "level_text": "Coq theorem over every history of StateDB calls (any length, any nesting depth, any number of finalised transactions before the snapshot): a RevertToSnapshot to an id that stayed valid does not fail and gives back the snapshot's state on both journals - all account getters for all addresses and keys, journal, dirty sets, refund, logs, preimages, validators, index, statistics, withdraw queue, both revision lists - for all calls outside two listed finding classes (RemoveValidator, RemoveWithdrawRecords), the designed RIPEMD touch exception and Prepare, with stated side conditions on the three validator calls. The full statement is refuted on the faithful model by concrete witnesses for the two findings. The model is a hand-written mirror of statedb.go/journal.go/state_object.go/statedb_val.go (both journals, both revision lists) compared inside Coq with the real StateDB after every call of hundreds of random histories per run; an independent oracle in the harness checks the property itself on the implementation (full dump and roots of a copy at snapshot vs after revert).",
-    "level_note": "Trusted: Coq kernel + vm_compute; model fidelity rests on the differential check (checksummed full observation after every call). The read caches (live object map over the account trie, originStorage over the storage trie) are merged in the model; Go pointer aliasing is outside the value model (the delegation-slice finding is therefore implementation-only); negative balances, uint64 overflow of nonce/refund, roles outside 1..3, Copy and the staking trie are outside the model; no axioms.",
     "check": check,
+    "level_text": "Coq theorem over every history of StateDB calls (any length, any nesting depth, any number of finalised transactions before the snapshot): a RevertToSnapshot to an id that stayed valid does not fail and gives back the snapshot's state on both journals - all account getters for all addresses and storage keys, journal, dirty sets, refund, logs, preimages, validators, index, statistics, withdraw queue, both revision lists - and what IntermediateRoot then writes into the tries is what it would have written at the snapshot. Covered: every modelled call except Prepare and the designed RIPEMD touch exception, with stated side conditions on the validator calls (measured to hold on all generated histories). The model is a hand-written mirror of statedb.go / journal.go / state_object.go / statedb_val.go (both journals, both revision lists) compared inside Coq with the real StateDB after every call of hundreds of random histories per run; an independent oracle in the harness checks the property itself on the implementation (full dump and roots of a copy at snapshot time vs after the revert). The model also carries the behaviour before fix fe4c1ff behind a switch; for that behaviour the full statement is refuted in Coq by the two modelled witnesses.",
+    "level_note": "Trusted: Coq kernel + vm_compute; model fidelity rests on the differential check (61-bit checksum of the full observation after every call). The read caches (live object map over the account trie, originStorage over the storage trie) are merged in the model; Go pointer aliasing is outside the value model (the delegation-slice regression is therefore covered by implementation-only histories and the oracle); negative balances, uint64 overflow of nonce/refund, validator roles outside 1..3, StateDB.Copy and the staking trie are outside the model; no axioms.",
     "harness": "c09",
     "hooks": ["core/state/zz_verif_c09.go"],
     "translators": [],
     "coq_targets": ["C09/Model.vo", "C09/ProofsMaps.vo", "C09/ProofsA.vo", "C09/ProofsV.vo", "C09/Proofs.vo", "C09/Properties.vo"],
     "properties_v": "C09/Properties.v",
     "obligations": [
-        "C09_revert_restores_holds_outside", "C09_restored_account_getters", "C09_restored_account_observation",
-        "C09_restored_validator_getters", "C09_revision_lists_agree", "C09_refuted",
-        "C09_refuted_remove_validator_statistics", "C09_refuted_withdraw_queue_order", "C09_ripemd_touch_exception",
-        "C09_nonvacuous_window", "C09_nonvacuous_validator_window",
+        "C09_revert_restores", "C09_revert_restores_before_fix_holds_outside", "C09_revert_restores_with_create_fix",
+        "C09_restored_account_getters", "C09_restored_account_observation", "C09_restored_validator_getters",
+        "C09_resulting_tries", "C09_revision_lists_agree",
+        "C09_refuted_before_fix", "C09_before_fix_remove_validator_statistics", "C09_before_fix_withdraw_queue_order",
+        "C09_ripemd_touch_exception",
+        "C09_nonvacuous_window", "C09_nonvacuous_validator_window", "C09_nonvacuous_remove_window",
+        "C09_create_over_removed_validator",
     ],
     "cases": {"quick": 500, "thorough": 12000},
     "shard": 500,
     "search_factor": 3,
-    "gen_args": [],
+    "gen_args": ["-tier", "{tier}"],
     "allowed_axioms": [],
     "finding_key": lambda h: h.get("what"),
     "trusted_base": [
         "Coq 8.16.1 kernel (vm_compute for the concrete witnesses, the non-vacuity examples and the model runs; no native_compute)",
         "no axioms: every obligation is Closed under the global context",
-        "hand-written model coq/C09/Model.v of Snapshot / RevertToSnapshot / Finalise / IntermediateRoot / Commit / clearJournalAndRefund, every journal entry of both journals, the account, storage, log, preimage, refund, delegation, validator and withdraw-queue mutators",
+        "hand-written model coq/C09/Model.v of Snapshot / RevertToSnapshot / Finalise / IntermediateRoot / Commit+New / clearJournalAndRefund, every journal entry of both journals, the account, storage, code, log, preimage, refund, delegation, validator and withdraw-queue mutators",
         "correspondence harness harness/cmd/c09 (Go, real StateDB on a memory database) + in-Coq evaluation of the model on the same histories; 61-bit checksum of the full observation after every call",
         "add-only hook hooks/core/state/zz_verif_c09.go (reads journal lengths, revision lists, dirty sets, delegation list, validator peek)",
         "the property oracle of the harness (rich observation incl. roots of Copy().IntermediateRoot at snapshot time vs after the revert)",
     ],
     "assumptions": [
         "read caches are semantically transparent (live objects over the account trie, originStorage over the storage trie): merged in the model, exercised by the harness (every getter is called after every call)",
-        "inside the window: no Prepare; no zero-value AddBalance to the RIPEMD precompile (designed exception, witnessed by C09_ripemd_touch_exception); no RemoveValidator / RemoveWithdrawRecords (findings)",
-        "CreateValidator targets an address that is in neither the live map nor the index (or an existing validator: refused); UpdateValidator is called with oldVal = the live record, which is in the index, and the statistics are non-negative, counters < 2^64 and cover the old record; GetValidatorByMainAddr does not have to load from the trie (all hold on histories built through the API with validators read after a reopen; measured by the harness, not proved)",
+        "inside the window: no Prepare (not journalled by design, called before a transaction's snapshot); no zero-value AddBalance to the RIPEMD precompile (designed upstream exception, witnessed by C09_ripemd_touch_exception)",
+        "validator calls inside the window meet the side conditions of ProofsV.v: CreateValidator targets an address that is in neither the live map nor the index (or an existing validator: refused); UpdateValidator / RemoveValidator act on the live record, which is in the index, while the statistics are non-negative, counters < 2^64 and cover that record; GetValidatorByMainAddr does not have to load from the trie; RemoveWithdrawRecords gets distinct positions. Measured on every generated history (distribution side_condition_*), not proved to be an invariant",
         "balances and delegation balances stay >= 0 (a negative big.Int cannot be RLP-encoded), nonce/refund below 2^64, validator roles in 1..3",
         "Go pointer aliasing is not modelled: the journal's old records are values",
     ],
@@ -96,8 +93,8 @@ SPEC = {
                  "StateDB.clearJournalAndRefund", "journal.append", "journal.revert", "all 13 account journal entries", "all 5 validator journal entries",
                  "AddBalance/SubBalance/SetBalance/SetNonce/SetCode/SetState/Suicide/CreateAccount/AddLog/AddPreimage/AddRefund/SubRefund/UpdateDelegator/Prepare",
                  "CreateValidator/UpdateValidator/RemoveValidator/GetValidatorByMainAddr/AddWithdrawRecord/RemoveWithdrawRecords",
-                 "stateObject.finalise/updateTrie", "incr/decrValidatorsStat", "WithdrawQueue.Delete/RemoveRecords"],
+                 "stateObject.finalise/updateTrie", "incr/decrValidatorsStat", "WithdrawQueue.Delete/RemoveRecords/Insert"],
     "partial": [
-        "C09_revert_restores_holds_outside: excludes the two finding classes and carries side conditions on validator calls (see assumptions); the roots after the revert are covered by the harness oracle, in Coq only through equality of everything IntermediateRoot reads up to aeq",
+        "C09_revert_restores: side conditions on the validator calls (see assumptions) are hypotheses, not derived from an invariant of reachable states; the roots themselves are hashes outside the model - proved is equality of the trie contents they are hashes of (C09_resulting_tries), checked on the implementation by the oracle",
     ],
 }
